@@ -88,7 +88,7 @@ func (prop) Describe() core.Description {
 		RealComponents: []string{"go-geom root package: Bounds (NewBounds, Extend, Min, Max, Layout, IsEmpty, Overlaps, OverlapsPoint, Polygon, Clone), T.Bounds() of all seven types", "encoding/geojson (Marshal with EncodeGeometryWithBBox)"},
 		StubComponents: []string{"the network between message source and replicas (seeded delivery order and duplication)"},
 		FaultKinds:     []string{"reordered-delivery", "duplicate-delivery"},
-		Probes:         []string{"probe:xym-then-xyz", "probe:xyz-then-xym", "probe:xym-into-xyzm", "probe:xyz-into-xyzm", "probe:nested-collection-message", "probe:collection-message", "probe:empty-message-promotes-layout", "probe:mixed-layout-collection-bounds", "probe:push-into-nested-collection-after-bounds", "probe:layout>4-bounds", "probe:returned-polygon-scribbled", "probe:adjacent-boxes", "probe:overlap-true", "probe:overlap-false", "probe:point-overlap-true", "probe:point-overlap-false", "probe:geojson-bbox-checked", "probe:geojson-bbox-with-crs"},
+		Probes:         []string{"probe:xym-then-xyz", "probe:xyz-then-xym", "probe:xym-into-xyzm", "probe:xyz-into-xyzm", "probe:nested-collection-message", "probe:collection-message", "probe:empty-message-promotes-layout", "probe:mixed-layout-collection-bounds", "probe:push-into-nested-collection-after-bounds", "probe:layout>4-bounds", "probe:returned-polygon-scribbled", "probe:adjacent-boxes", "probe:overlap-true", "probe:overlap-false", "probe:point-overlap-true", "probe:point-overlap-false", "probe:geojson-bbox-checked", "probe:geojson-bbox-with-crs", "probe:bbox-option-value-reused"},
 	}
 }
 
@@ -502,6 +502,16 @@ func (prop) Execute(scAny any, phase string, log *core.Log) core.Result {
 	boxes := make([]box, n)
 	msgBounds := make([]*geom.Bounds, n)
 	layoutsWithData := map[int]bool{}
+	// one bounding-box option value for the whole run, as an application that
+	// builds its options once has it; the documents encoded with it are kept
+	// and written out only after all of them have been encoded
+	sharedBBox := geojson.EncodeGeometryWithBBox()
+	type keptDoc struct {
+		i    int
+		ge   *geojson.Geometry
+		want []float64
+	}
+	var keptDocs []keptDoc
 	for i, m := range s.Msgs {
 		m = m.Clone().Norm()
 		g, err := mgeom.Build(m)
@@ -657,6 +667,17 @@ func (prop) Execute(scAny any, phase string, log *core.Log) core.Result {
 					res.Fail("geojson-bbox-wrong", "geojson-bbox-wrong:"+m.T, "the GeoJSON bounding box of %s is %v, the coordinates span %v", m, doc.BBox, want)
 					return res
 				}
+				if len(keptDocs) < 3 {
+					var ge *geojson.Geometry
+					var eerr error
+					if p := core.Guard(func() { ge, eerr = geojson.Encode(g, sharedBBox) }); p != "" {
+						res.Fail("panic", "panic:geojson-bbox:"+core.PanicSite(p), "geojson.Encode with a bounding box panicked on %s: %s", m, p)
+						return res
+					}
+					if eerr == nil && ge != nil {
+						keptDocs = append(keptDocs, keptDoc{i, ge, want})
+					}
+				}
 				// With a maximum number of decimal digits the box is the box of
 				// the numbers that are written: rounding is monotone, so every
 				// bbox number equals the min/max of the emitted ordinates of its
@@ -670,6 +691,36 @@ func (prop) Execute(scAny any, phase string, log *core.Log) core.Result {
 					}
 				}
 			}
+		}
+	}
+	// the documents encoded with the one option value, written out now: each
+	// still carries the box of its own geometry
+	for _, kd := range keptDocs {
+		var js []byte
+		var jerr error
+		if p := core.Guard(func() { js, jerr = json.Marshal(kd.ge) }); p != "" || jerr != nil {
+			res.Fail("geojson-bbox-wrong", "geojson-bbox-wrong:kept-document", "writing out the document encoded for message %d failed: %v %s", kd.i, jerr, p)
+			return res
+		}
+		var doc struct {
+			BBox []float64 `json:"bbox"`
+		}
+		if err := json.Unmarshal(js, &doc); err != nil {
+			res.Fail("geojson-bbox-wrong", "geojson-bbox-wrong:not-json", "the document encoded for message %d is invalid JSON %s: %v", kd.i, js, err)
+			return res
+		}
+		same := len(doc.BBox) == len(kd.want)
+		for k := range kd.want {
+			if same && doc.BBox[k] != kd.want[k] {
+				same = false
+			}
+		}
+		if !same {
+			res.Fail("geojson-bbox-wrong", "geojson-bbox-wrong:kept-document", "the document encoded for message %d with an option value that was then used for other geometries carries the bounding box %v when it is written out; its coordinates span %v", kd.i, doc.BBox, kd.want)
+			return res
+		}
+		if len(keptDocs) >= 2 {
+			res.Count("probe:bbox-option-value-reused", 1)
 		}
 	}
 	// replicas
